@@ -53,12 +53,9 @@ def beh(f):
 _N = [0]
 
 
-def run_layout(src):
-    """exec the layout; returns list of per-call records (op, callable behaviour, outcome) where outcome is
-    ('ok', behaviour of the recorded lambda) or ('raised', exception type)."""
+def make_ds(records):
+    "a dataset class whose operators go to the REAL operators and record (op, behaviour passed, outcome)"
     from func_adl import EventDataset
-
-    records = []
 
     class DS(EventDataset):
         flag = True
@@ -103,6 +100,15 @@ def run_layout(src):
                 return lambda *a: self
             raise AttributeError(n)
 
+    return DS
+
+
+def run_layout(src):
+    """exec the layout; returns list of per-call records (op, callable behaviour, outcome) where outcome is
+    ('ok', behaviour of the recorded lambda) or ('raised', exception type)."""
+    records = []
+    DS = make_ds(records)
+
     _N[0] += 1
     fn = f"<c03lay{_N[0]}>"
     linecache.cache[fn] = (len(src), None, src.splitlines(True), fn)
@@ -117,23 +123,100 @@ def run_layout(src):
     return records, crashed
 
 
+VERSIONS = {
+    # same layout, same length, another body / a line more in front and another body
+    "inline": {"A": "def build(ds):\n    return ds.Select(lambda e: e.m1 + 1)\n",
+               "B": "def build(ds):\n    return ds.Select(lambda e: e.m2 + 1)\n",
+               "C": "X = 1\ndef build(ds):\n    return ds.Select(lambda e: e.m3.x + 1)\n"},
+    "wrapped": {"A": "def build(ds):\n    return ds.Select(\n        lambda e: e.m1 + 1\n    )\n",
+                "B": "def build(ds):\n    return ds.Select(\n        lambda e: e.m2 + 1\n    )\n",
+                "C": "def build(ds):\n    return ds.Where(lambda f: f.m0 > 1).Select(\n        lambda e: e.m3.x + 1\n    )\n"},
+    "named-def": {"A": "def f(e): return e.m1 + 1\ndef build(ds):\n    return ds.Select(f)\n",
+                  "B": "def f(e): return e.m2 + 1\ndef build(ds):\n    return ds.Select(f)\n",
+                  "C": "Y = 2\ndef f(e):\n    return e.m3.x + 1\ndef build(ds):\n    return ds.Select(f)\n"},
+}
+
+
+def reload_histories():
+    import itertools
+
+    out = []
+    for lay in VERSIONS:
+        for n in (2, 3):
+            for seq in itertools.product("ABC", repeat=n):
+                if all(seq[i] != seq[i + 1] for i in range(n - 1)):
+                    out.append((lay, seq))
+    return out
+
+
+def run_reload(lay, seq):
+    """a source file on disk is written, imported, used, then edited and reloaded (as in an interactive session);
+    after every step the query is built again: it must hold the lambda of the file's CURRENT text"""
+    import importlib
+    import importlib.util
+    import os
+    import shutil
+    import sys
+    import tempfile
+
+    records = []
+    DS = make_ds(records)
+    d = tempfile.mkdtemp(prefix="fadlmc_c03_")
+    _N[0] += 1
+    name = f"fadlmc_c03_reload_{os.getpid()}_{_N[0]}"
+    path = os.path.join(d, name + ".py")
+    old_flag = sys.dont_write_bytecode
+    sys.dont_write_bytecode = True
+    steps = []
+    try:
+        mod = None
+        for k, v in enumerate(seq):
+            with open(path, "w") as f:
+                f.write(VERSIONS[lay][v])
+            os.utime(path, (1_000_000_000 + 100 * k, 1_000_000_000 + 100 * k))
+            if mod is None:
+                spec = importlib.util.spec_from_file_location(name, path)
+                mod = importlib.util.module_from_spec(spec)
+                sys.modules[name] = mod
+                spec.loader.exec_module(mod)
+            else:
+                importlib.invalidate_caches()
+                spec.loader.exec_module(mod)  # what importlib.reload does for a module with a known spec
+            n0 = len(records)
+            try:
+                mod.build(DS())
+                crashed = None
+            except Exception as e:
+                crashed = f"{type(e).__name__}: {e}"
+            steps.append((v, records[n0:], crashed))
+    finally:
+        sys.dont_write_bytecode = old_flag
+        sys.modules.pop(name, None)
+        linecache.cache.pop(path, None)
+        shutil.rmtree(d, ignore_errors=True)
+    return steps
+
+
+ORDINARY = ("module", "def", "method", "if-block", "try-block", "module-eof")
+
+
 def supported(meta):
     """documented-supported layouts (conservative): plain operators, ordinary statement contexts, and no two
     lambdas starting on the same physical line with the same operator and the same parameter name"""
     shape, ctx = meta[0], meta[1]
     if shape.startswith("closure:"):
-        return ctx in ("module", "def", "method")
+        return ctx in ORDINARY
     if shape.startswith("one:"):
         return True  # one lambda on the line is the documented base case, whatever else the line holds
     if shape.startswith("named:"):
         # functions defined with def and passed by name are a documented way to supply the callable
         parts = shape.split(":")
-        return "lam" not in parts[2:] and ctx in ("module", "def", "method") and not any(c[0] == "sel" for c in meta[2:]) \
+        return "lam" not in parts[2:] and ctx in ORDINARY and not any(c[0] == "sel" for c in meta[2:]) \
             and not parts[1].startswith("mixed")
     calls = meta[2:] if len(meta) > 3 else meta[2]
     if isinstance(calls[0], str):
         calls = meta[2:]
-    if ctx not in ("module", "def", "method", "nested-def"):
+    if ctx not in ORDINARY + ("nested-def",):
         return False
     if any(c[0] == "sel" for c in calls):
         return False
@@ -182,12 +265,39 @@ class C03(Check):
                                                "call on the same line: conditional expression, tuple, second statement, "
                                                "method called on the result", "fragments": list(layouts.FRAGMENTS)},
                   layouts.enumerate_one_call_with_neighbours, runner="run_lay"),
+            Space("edit-and-reload histories", {"layouts": list(VERSIONS), "versions": "A, B (same size, another body), C (lines "
+                                                "shifted, another body)", "histories": "every sequence of 2..3 versions, "
+                                                "adjacent ones different; the query is rebuilt after each (re)load"},
+                  reload_histories, runner="run_reload_case"),
             Space("closure-reuse", {"shapes": ["loop", "helper called twice", "list comprehension", "default argument", "two sites"]},
                   layouts.enumerate_closure_reuse, runner="run_lay"),
             Space("three-calls", {"ops": layouts.OPS[:3] if Q else layouts.OPS, "params": layouts.PARAMS},
                   (lambda: layouts.enumerate_three_calls(layouts.OPS[:3] if Q else layouts.OPS, layouts.PARAMS,
                                                          ("module", "def", "oneline-def", "oneline-def1", "method"))), runner="run_lay"),
         ]
+
+    def run_reload_case(self, payload):
+        lay, seq = payload
+        seq = tuple(seq)
+        canon = repr((lay, seq))
+        res = {"n": len(seq), "nt": [canon], "oc": [], "tags": {}, "viol": []}
+        for k, (v, recs, crashed) in enumerate(run_reload(lay, seq)):
+            if crashed and not recs:
+                raise RuntimeError(f"harness: reload step does not execute: {crashed}")
+            for op, want, out in recs:
+                if out[0] == "raised":
+                    res["oc"].append("raised")
+                    res["viol"].append({"kind": "supported-layout-refused:after-reload" if k else "supported-layout-refused",
+                                        "canon": canon, "msg": f"step {k} (version {v}) {op}: {out[2]}"})
+                elif out[1] != want:
+                    res["oc"].append("STALE")
+                    res["viol"].append({"kind": "recorded-a-different-lambda:after-reload", "canon": canon,
+                                        "msg": f"step {k} (version {v}): {op} was passed {want} but the query holds {out[1]}"})
+                else:
+                    res["oc"].append("recovered")
+        res["oc"] = sorted(set(res["oc"]))
+        res["viol"] = res["viol"][:1]
+        return res
 
     def run_lay(self, payload):
         src, meta = payload
